@@ -15,6 +15,7 @@ import glom
 from glom import Path, T, PathAccessError, GlomError
 
 from ..runner import Sub, Mismatch
+from .. import runner as runner_mod
 from .. import targets as tg
 
 PROPERTY = 'C01'
@@ -28,7 +29,7 @@ ASSUMPTIONS = [
     'identity is required for containers; immutable atoms and bound methods are compared by == (Python gives no identity guarantee)',
     'targets have well-behaved __eq__/__repr__; recording subclasses of dict/list/object log item/attribute access',
 ]
-BOUNDS = {'quick': {'depth': 4, 'width': 3, 'path_len': 6}, 'thorough': {'depth': 4, 'width': 3, 'path_len': 6}}
+BOUNDS = {'quick': {'depth': 4, 'width': 3, 'path_len': 6}, 'thorough': {'depth': 5, 'width': 4, 'path_len': 8}}
 
 MAPPING = (dict,)
 SEQ = (list, tuple)
@@ -73,11 +74,12 @@ ATTRS = ['a', 'b', 'c', 'x', 'real', 'zz']
 
 
 def gen(draw):
-    trecipe = tg.target_recipes(draw, depth=4, width=3)
+    big = runner_mod.thorough()
+    trecipe = tg.target_recipes(draw, depth=5 if big else 4, width=4 if big else 3)
     b = tg.build(trecipe)
     cur = b.obj
     steps = []
-    n = draw(st.integers(0, 6))
+    n = draw(st.integers(0, 8 if big else 6))
     failed = False
     for _ in range(n):
         op = draw(st.sampled_from(['P', 'P', 'P', 'P', '[', '.']))
